@@ -253,7 +253,8 @@ def handle (st : State) (cmd : String) (inp obsToks : List String) : State × St
                 if st.mt == .sei then (List.range pre.length).findSome? fun h =>
                   let a := pre[h]!; let b := post[h]!
                   if a.e.isEmpty || arrivalsStayExposed a b then none
-                  else some s!"PROPFAIL C05 arrival_not_exposed cell={k} host={h} pre={HostEng.showCell a} post={HostEng.showCell b}"
+                  else some (s!"PROPFAIL C05 arrival_not_exposed cell={k} host={h} pre={HostEng.showCell a} post={HostEng.showCell b}" ++
+                    s!" ;; PROPFAIL C04 established_host_not_exposed cell={k} host={h} pre={HostEng.showCell a} post={HostEng.showCell b}")
                 else none
               let spec : Option String :=
                 match ws with
@@ -263,7 +264,9 @@ def handle (st : State) (cmd : String) (inp obsToks : List String) : State × St
                   else if pre.length ≥ 2 && decide (sumR l > 0) && !(validPickB l v pick && pickTok != "-") then
                     some s!"MISMATCH mm.land pick={pickTok} not possible for the weights {l}"
                   else if !(multiEstablishSpec st.mcfg st.ps l pre pick tester res) then
-                    some s!"PROPFAIL C16 establish_event cell={k} ret={res} total={sumR l} weights={l} pick={pick} tester={tester}"
+                    -- the establishment rule is C12's (probability = suitability; deterministic: suitability > 1 - p)
+                    some (s!"PROPFAIL C16 establish_event cell={k} ret={res} total={sumR l} weights={l} pick={pick} tester={tester}" ++
+                      s!" ;; PROPFAIL C12 establish_event cell={k} ret={res} total={sumR l} weights={l} pick={pick} tester={tester}")
                   else none
               match inv, sei, spec with
               | some x, _, _ => (st2, x ++ s!" (hosts of cell {k})")
